@@ -140,30 +140,59 @@ function __probe(text, path) {
 		panic(err)
 	}
 	baseline := ""
+	// large documents: every byte offset that is a multiple of 512 falls inside a run of 2-, 3- and 4-byte characters (at a random
+	// alignment), so a loader that handles the text in blocks, windows or buffers of any usual size cuts through a character
+	largeLens := []int{600, 1100, 4200, 8300, 16500, 33000, 66000, 132000, 270000}
+	nLarge := 8
+	if lib.Tier() == "thorough" {
+		nLarge = 60
+	}
+	large := map[int]string{}
+	for i := 0; i < nLarge; i++ {
+		L := largeLens[r.Intn(len(largeLens))]
+		var sb strings.Builder
+		sb.WriteString(`{"k":["`)
+		sb.WriteString(strings.Repeat("x", r.Intn(10)))
+		unit := []string{"aé世😀", "é", "世界", "😀", " é"}[r.Intn(5)]
+		for sb.Len() < L {
+			if r.Chance(3) {
+				sb.WriteString(`","`)
+			} else if r.Chance(2) {
+				sb.WriteString(`\n\"`)
+			}
+			sb.WriteString(unit)
+		}
+		sb.WriteString(`"]}`)
+		large[r.Intn(n)] = sb.String()
+	}
 	for c := 0; c < n; c++ {
 		var content string
 		class := ""
-		switch k := r.Intn(10); {
-		case k < 5:
-			content, class = g.validJSON(g.value(0)), "valid-json"
-		case k < 7:
-			base := g.validJSON(g.value(0))
-			muts := []func(string) string{
-				func(s string) string { return strings.Replace(s, "]", ",]", 1) },
-				func(s string) string { return s + " // c" },
-				func(s string) string { return strings.Replace(s, "\"", "'", 2) },
-				func(s string) string { return s + "}" },
-				func(s string) string { return "/* */" + s },
-				func(s string) string { return "" },
-				func(s string) string { return s + "\n" + s },
+		if big, ok := large[c]; ok {
+			content, class = big, "large-multibyte"
+		} else {
+			switch k := r.Intn(10); {
+			case k < 5:
+				content, class = g.validJSON(g.value(0)), "valid-json"
+			case k < 7:
+				base := g.validJSON(g.value(0))
+				muts := []func(string) string{
+					func(s string) string { return strings.Replace(s, "]", ",]", 1) },
+					func(s string) string { return s + " // c" },
+					func(s string) string { return strings.Replace(s, "\"", "'", 2) },
+					func(s string) string { return s + "}" },
+					func(s string) string { return "/* */" + s },
+					func(s string) string { return "" },
+					func(s string) string { return s + "\n" + s },
+				}
+				content, class = muts[r.Intn(len(muts))](base), "near-json"
+			case k < 9:
+				content, class = g.str()+g.str(), "adversarial-delimiters"
+			default:
+				content, class = "\""+g.str()+"\"", "quoted-raw"
 			}
-			content, class = muts[r.Intn(len(muts))](base), "near-json"
-		case k < 9:
-			content, class = g.str()+g.str(), "adversarial-delimiters"
-		default:
-			content, class = "\""+g.str()+"\"", "quoted-raw"
 		}
-		if r.Chance(12) { // text framing: what precedes / follows the value is part of the text that JSON.parse sees
+		if class != "large-multibyte" && r.Chance(12) { // text framing: what precedes / follows the value is part of the text that JSON.parse sees
 			pre := r.Pick([]string{"\uFEFF", "\uFEFF\uFEFF", " \uFEFF", "\u00A0", "\u2028", "\t\n\r ", "\x00", "\uFFFE", "\v", "\f"})
 			if r.Chance(70) {
 				content = pre + content
@@ -224,7 +253,19 @@ function __probe(text, path) {
 		}
 		lit, _ := json.Marshal(content)
 		nontriv := strings.ContainsAny(content, "'\"\\\n\r})(") || !isASCII(content)
-		if illformed || !utf8.ValidString(content) {
+		if class == "large-multibyte" {
+			short := map[string]interface{}{}
+			for k, v := range desc { // a failure recorded above keeps the whole text; the case list keeps a summary
+				short[k] = v
+			}
+			short["content"] = fmt.Sprintf("%d bytes: %s ... %s", len(content), content[:40], content[len(content)-24:])
+			short["json_parse"], short["required"] = "(omitted)", "(omitted)"
+			desc = short
+			if res[1] != nil {
+				panic("generator: large document is not valid JSON")
+			}
+			out.Add("crashed", desc, true, tags...) // Go-side oracle only (deep equality with JSON.parse of the text in the same runtime)
+		} else if illformed || !utf8.ValidString(content) {
 			out.Add("crashed", desc, nontriv, tags...) // Go-side oracle only: the Coq model is over scalar values
 		} else {
 			out.Add(fmt.Sprintf("{| k_text := %s; k_go_lit := %s |}", lib.Runes(content), lib.Runes(string(lit))), desc, nontriv, tags...)
